@@ -41,9 +41,11 @@ def selection(ctx):
         ys = [e for e in ex.of(Effect) if _yield_arg(e) is not None and loops(e)]
         if not ys:
             continue
-        lf = [t for t in {x for e in ys for x in subterms(loops(e)[0][1])} | {("v", "lhs_fields", k) for k in ex.vardefs} if t[0] == "v" and ex.vardefs.get(t[2]) == ("call", ("n", "assign_arg_fields"), (LHS,), ())]
-        rf = [("v", "rhs_fields", k) for k, d in ex.vardefs.items() if d == ("call", ("n", "assign_arg_fields"), (RHS,), ())]
-        lfs = [("v", "lhs_fields", k) for k, d in ex.vardefs.items() if d == ("call", ("n", "assign_arg_fields"), (LHS,), ())]
+        # the two field-set variables, found by their definition (not by their local names)
+        vts = {x for t, _ in ex.config for x in subterms(t) if x[0] == "v"} | {x for e in ex.facts for f_ in (getattr(e, "call", None), getattr(e, "exc", None), getattr(e, "value", None)) if f_ is not None for x in subterms(f_) if x[0] == "v"}
+        vts |= {x for e in ex.facts for fr in e.frames for y in fr[1:] if isinstance(y, tuple) for x in subterms(y) if isinstance(x, tuple) and x and x[0] == "v"}
+        lfs = sorted(x for x in vts if ex.vardefs.get(x[2]) == ("call", ("n", "assign_arg_fields"), (LHS,), ()))
+        rf = sorted(x for x in vts if ex.vardefs.get(x[2]) == ("call", ("n", "assign_arg_fields"), (RHS,), ()))
         if len(lfs) != 1 or len(rf) != 1:
             raise AnalysisError("C40.selection", fn.site, "lhs_fields / rhs_fields = assign_arg_fields(lhs / rhs) not found")
         LF, RF = lfs[0], rf[0]
